@@ -49,7 +49,10 @@ def lexer_key_rule(ctx: Ctx, rid: str) -> None:
                   gl.loc(), detail={"attribute": attr, "read_in": where})
     ctx.check(len(set(keys)) == len(keys), "key:unique", "lexer:get_lexer", "duplicate key component", "a key component is listed twice (another one is probably missing)", gl.loc())
     s = ast.unparse(gl.node)
-    ctx.check("_lexer_cache.get(key)" in s and "_lexer_cache[key] = lexer = Lexer(environment)" in s, "key:use", "lexer:get_lexer", "lookup/store use the key", "lookup and store must use the same key", gl.loc())
+    stores = [a for a in ast.walk(gl.node) if isinstance(a, ast.Assign) and any(ast.unparse(t_) == "_lexer_cache[key]" for t_ in a.targets)]
+    built = [a for a in ast.walk(gl.node) if isinstance(a, ast.Assign) and ast.unparse(a.value) == "Lexer(environment)"]
+    stored_ok = len(stores) == 1 and len(built) == 1 and (stores[0] is built[0] or ast.unparse(stores[0].value) in {ast.unparse(t_) for t_ in built[0].targets})
+    ctx.check("_lexer_cache.get(key)" in s and stored_ok, "key:use", "lexer:get_lexer", "lookup/store use the key", "lookup and store must use the same key", gl.loc())
     # options the tokenizer uses at run time must be captured at construction
     lm = LexModel(repo, configs()[0])
     ti = repo.func("lexer:Lexer.tokeniter")
@@ -105,7 +108,7 @@ def check(ctx: Ctx) -> str:
     ctx.check("args = dict(locals())" in src and "setattr(rv, key, value)" in src, "overlay:generic", "environment:Environment.overlay", "generic application loop", "the generic `for key, value in args.items(): setattr(rv, key, value)` loop is gone", ov.loc())
     explicit = {"cache_size": "rv.cache = create_cache(cache_size)", "extensions": "load_extensions(rv, extensions)", "enable_async": "rv.is_async = enable_async"}
     for p in sorted(dels):
-        ctx.check(p in explicit and explicit[p] in src and any(f"{p} is not missing" in g and pol for n in ast.walk(ov.node) if isinstance(n, (ast.Assign, ast.Expr)) and explicit[p] in ast.unparse(n) for g, pol in astq.guard_texts(ov.node, n)),
+        ctx.check(p in explicit and explicit[p] in src and any((f"{p} is missing", False) in astq.guard_atoms(ov.node, n) for n in ast.walk(ov.node) if isinstance(n, (ast.Assign, ast.Expr)) and explicit[p] in ast.unparse(n)),
                   f"overlay:explicit:{p}", "environment:Environment.overlay", f"explicit branch for {p}", f"{p} is removed from the generic loop but has no `if {p} is not missing:` branch applying it", ov.loc())
     # attribute names of the generic loop equal the attribute names __init__ stores
     stored = {n.targets[0].attr: ast.unparse(n.value) for n in ast.walk(init.node) if isinstance(n, ast.Assign) and isinstance(n.targets[0], ast.Attribute) and ast.unparse(n.targets[0].value) == "self"}
@@ -122,7 +125,7 @@ def check(ctx: Ctx) -> str:
 
     ctx.rule("R4", "compile_rules returns the start delimiters longest first (so that '<%=' wins over '<%')")
     cr = repo.func("lexer:compile_rules")
-    rets = astq.returns(cr.node)
+    rets = astq.returns(cr.nnode)  # normal form: a local naming the sorted list is inlined
     ok = len(rets) == 1 and "sorted(rules, reverse=True)" in ast.unparse(rets[0].value)
     ctx.check(ok, "compile_rules:order", "lexer:compile_rules", "sorted longest first", "compile_rules must return sorted(rules, reverse=True) with the delimiter length as the first tuple component", cr.loc())
     tuples = [n for n in ast.walk(cr.node) if isinstance(n, ast.Tuple) and len(n.elts) == 3 and isinstance(n.elts[0], ast.Call) and astq.callee(n.elts[0]) == "len"]
